@@ -24,7 +24,7 @@ func init() {
 				"of every fallible step that precedes it in its function, and every such step's error is checked; addRuleList keeps " +
 				"the previous list on each error edge. R4: the index conversion skips invalid entries and keeps converting the rest.",
 			NotCovered: "behaviour of the HTTP client under each fault kind; atomicity of renameio itself (trusted); disk-full and fsync semantics.",
-			Rules: map[string]string{"C13-R12": "in-place list refresh: engine swap and cache clear under one write lock; same-typed arguments (acceptStale vs cache switches) are not crossed", "C13-R11": "the periodic refresh worker: the loop ends only on shutdown, refreshes on every uninterrupted tick, survives a failed refresh; shutdown refresh exactly when configured; constructor field map", "C13-R9": "an index key is converted to filter.ID only where the same field is validated by filter.NewID in the package", "C13-R10": "components with RefreshInitial are started through it in package cmd, never through their periodic Refresh", "C13-R1": "download / replace protocol tables", "C13-R2": "who may mutate files",
+			Rules: map[string]string{"C13-R13": "loadIndex only sorts the decoded entries; none is removed before validation", "C13-R12": "in-place list refresh: engine swap and cache clear under one write lock; same-typed arguments (acceptStale vs cache switches) are not crossed", "C13-R11": "the periodic refresh worker: the loop ends only on shutdown, refreshes on every uninterrupted tick, survives a failed refresh; shutdown refresh exactly when configured; constructor field map", "C13-R9": "an index key is converted to filter.ID only where the same field is validated by filter.NewID in the package", "C13-R10": "components with RefreshInitial are started through it in package cmd, never through their periodic Refresh", "C13-R1": "download / replace protocol tables", "C13-R2": "who may mutate files",
 				"C13-R3": "commit only after success", "C13-R4": "invalid index entries skipped, not aborting",
 				"C13-R7": "exact HTTP status check; only the size-limited reader that fails at the limit is used on a list's path",
 				"C13-R6": "blocked-service index: any invalid entry rejects the whole update",
@@ -232,6 +232,8 @@ func runC13(c *an.Ctx) {
 	c.Floor("C13-R12", 3)
 	ruleListRefreshLocking(c, "C13-R12", "C13-R12", map[*ssa.Function]map[ssa.Instruction]an.Held{})
 	c.Inf("C13-R12", "crossed arguments", token.NoPos, "%d call sites with two same-typed named arguments examined in the filter packages and cmd", sharedSwappedArgs(c, "C13-R12", "filter", "cmd."))
+	c.Floor("C13-R13", 1)
+	c13IndexEntries(c)
 	// ---- R10: the storage (and every other component with a RefreshInitial) is started from what is cached
 	if n := sharedInitialRefresh(c, "C13-R10"); n < 4 {
 		c.Und("C13-R10", "start-up refreshes", token.NoPos, "only %d RefreshInitial calls found in package cmd (expected the rule-list storage and the three hash-prefix filters)", n)
@@ -996,4 +998,44 @@ func runC13(c *an.Ctx) {
 			return fmt.Sprintf("%d valid entries kept (invalid ones skipped, the rest still converted); got %d", want, got)
 		},
 	})
+}
+
+// c13IndexEntries: between decoding and validation the entries of the rule-list
+// index are only reordered; nothing removes one before each has been
+// validated on its own (a damaged entry that is dropped or that displaces a
+// valid one with the same key makes a served list disappear).
+func c13IndexEntries(c *an.Ctx) {
+	const k = "filter/filterstorage.(*Default).loadIndex"
+	fn := c.Fn(k)
+	if fn == nil {
+		c.Und("C13-R13", k+" keeps every index entry", token.NoPos, "anchor not found")
+		return
+	}
+	c.Analysed(k)
+	bad := ""
+	n := 0
+	for _, call := range an.Calls(fn) {
+		name := an.CalleeName(call)
+		if i := strings.Index(name, "["); i >= 0 {
+			name = name[:i]
+		}
+		if !strings.HasPrefix(name, "slices.") {
+			continue
+		}
+		n++
+		switch name {
+		case "slices.SortStableFunc", "slices.SortFunc":
+		default:
+			bad = name + " is applied to the index entries"
+		}
+	}
+	an.Instrs(fn, func(in ssa.Instruction) {
+		if st, ok := in.(*ssa.Store); ok {
+			if typ, field, _, ok := an.FieldOf(st.Addr); ok && typ == "filter/filterstorage.indexResp" && field == "Filters" {
+				bad = "the list of entries is replaced after decoding"
+			}
+		}
+	})
+	c.Check(bad == "", "C13-R13", k+" keeps every index entry", fn.Pos(),
+		fmt.Sprintf("the decoded entries are only sorted (%d slices.* calls)", n), bad+": an entry can be removed before it was validated")
 }
